@@ -4,9 +4,9 @@ Inventory of panic-capable sites in the non-test library code of /repo (for C13)
 
 The Lean model lists every `expect` / `assert!` / `panic!` of the library as an explicit outcome and proves it
 unreachable. A site that is not in the recorded inventory is not covered by that theorem. Sites with a message are
-identified by (kind, message), wherever they live; sites without one are counted per kind — so moving code around,
+identified by their message, wherever they live and whichever macro raises them; sites without one are counted per kind — so moving code around,
 extracting helpers or merging duplicates does not matter (found necessary by the behaviour-preserving refactorings
-refA/refC/refE, DESIGN.md §8).
+refA/refC/refE and, second batch, refA/refD; DESIGN.md §8).
 
   inventory.py            print the current inventory as JSON
   inventory.py --check    compare with tools/panic_sites.json: exit 1 and list sites that are new
@@ -71,10 +71,10 @@ def main():
         return 0
     if '--check' in sys.argv:
         rec = json.load(open(REC))
-        # A site with a message is known if the recorded inventory has a site of the same kind with the same message,
-        # wherever it now lives (moving an assertion into a helper, merging two identical ones or splitting a function
-        # is not a new way to panic). Sites without a message (`unwrap`, `unreachable!`, indexing) are counted per kind.
-        known = set((x[2], x[3]) for x in rec if x[3])
+        # A site with a message is known if the recorded inventory has a site with the same message, wherever it now lives
+        # and whichever macro raises it (moving an assertion into a helper, merging two identical ones, splitting a
+        # function or writing `.expect(m)` as `match … None => panic!(m)` is not a new way to panic). Sites without a message (`unwrap`, `unreachable!`, indexing) are counted per kind.
+        known = set(x[3] for x in rec if x[3])
         budget = {}
         for x in rec:
             if not x[3]:
@@ -82,7 +82,7 @@ def main():
         new = []
         for s in inv:
             if s[3]:
-                if (s[2], s[3]) not in known:
+                if s[3] not in known:
                     new.append(s)
             else:
                 budget[s[2]] = budget.get(s[2], 0) - 1
